@@ -668,20 +668,31 @@ func runC13(c *Ctx, out string) {
 			}
 		}
 	}
-	// the caller refills one slice between calls: same backing array, same length, other content
+	// the caller refills one slice between calls: same backing array, same length, other content.  All calls on the
+	// reused slice come first, back to back; the reference answers (fresh slices) are computed afterwards, so that no
+	// other call stands between two uses of the buffer
 	for _, width := range []int{1, 2, 3} {
 		buf := make([]string, width)
-		for round := 0; round < 40; round++ {
-			pool := []string{"MIT", "ISC", "Apache-2.0", "GPL-2.0-only", "GPL-2.0+", "LicenseRef-x", "Zlib"}
+		type rec struct {
+			e    string
+			list []string
+			got  bool
+		}
+		var recs []rec
+		pool := []string{"MIT", "ISC", "Apache-2.0", "GPL-2.0-only", "GPL-2.0+", "LicenseRef-x", "Zlib"}
+		for round := 0; round < 60; round++ {
 			for j := range buf {
 				buf[j] = pool[rng.Intn(len(pool))]
 			}
 			e := pool[rng.Intn(len(pool))]
 			got, _ := spdxexp.Satisfies(e, buf)
-			want, _ := spdxexp.Satisfies(e, append([]string{}, buf...))
+			recs = append(recs, rec{e, append([]string{}, buf...), got})
+		}
+		for _, r := range recs {
+			want, _ := spdxexp.Satisfies(r.e, append([]string{}, r.list...))
 			histories++
-			if got != want {
-				diffs = append(diffs, diff{"S " + hx(e) + " " + hxl(buf), "caller refilled the same slice since the previous call", fmt.Sprint(got), fmt.Sprint(want)})
+			if r.got != want {
+				diffs = append(diffs, diff{"S " + hx(r.e) + " " + hxl(r.list), "caller refilled the same slice since the previous call", fmt.Sprint(r.got), fmt.Sprint(want)})
 			}
 		}
 	}
